@@ -931,10 +931,12 @@ def g_gru(b):
     T, N, C, D = rng.randint(1, 3), rng.randint(1, 2), rng.randint(1, 3), rng.randint(1, 3)
     # C-contiguous float64 only: numba compiles one specialisation per (dtype, layout) signature, ~20 s each
     names = [b.leaf((T, N, C), lo=0.2, hi=1.0, kind=rng.choice(["tensor", "tensor", "array"]), layout="C", dtype="float64")]
+    mixed = rng.random() < 0.35
+    nd = lambda: "float32" if (mixed and rng.random() < 0.5) else "float64"
     for _ in range(3):
         names.append(b.leaf((C, D), lo=0.2, hi=1.0, constant=rng.choice([None, None, None, True]), layout="C", dtype="float64"))
         names.append(b.leaf((D, D), lo=0.2, hi=1.0, layout="C", dtype="float64"))
-        names.append(b.leaf((D,), lo=0.2, hi=1.0, kind=rng.choice(["tensor", "tensor", "array"]), layout="C", dtype="float64"))
+        names.append(b.leaf((D,), lo=0.2, hi=1.0, kind=rng.choice(["tensor", "tensor", "array"]), layout="C", dtype=nd()))
     kw = {}
     if rng.random() < 0.4:
         kw["s0"] = enc_arr(rand_values(rng, (N, D), 0.1, 0.8))
